@@ -417,6 +417,17 @@ def seek_landing(F, R):
               if s2['k'] == 'assign' and s2['rv']['k'] == 'agg' and 'num_frames' in (s2['rv'].get('fields') or []) and 'DecodeScheduler' in (s2['rv'].get('adt') or '')]
         R.check(len(tl) == 1 and len(fl) == 1 and tl[0] == fl[0], 'B.C18.seek', 'new:same-length', 'the transport of a new streaming sound is told the length %s, the scheduler plays to %s'
                 % ([x[:60] for x in tl], [x[:60] for x in fl]), detail={'length': (tl or ['?'])[0][:80]}, where=nb.file)
+        # ... and nothing in `new` writes into the transport after Transport::new built it (the loop region it resolved - an empty
+        # one filtered out, an open end set to the length - is the one the decoder thread steps with), and the loop region it is
+        # given is the settings' own
+        wr = [pretty_place(nb, s2['lhs']) for _, _, s2 in nb.stmts() if s2['k'] == 'assign' and s2['lhs']['p']
+              and 'ransport' in (nb.locals[s2['lhs']['l']].get('ty') or '')]
+        wr += [pretty_place(nb, s2['rv']['pl']) for _, _, s2 in nb.stmts() if s2['k'] == 'assign' and s2['rv']['k'] in ('ref', 'rawptr') and s2['rv'].get('bk') != 'shared'
+               and 'ransport' in (nb.locals[s2['rv']['pl']['l']].get('ty') or '')]
+        lr = [_d2(nb, t['args'][1], depth=6, at=bb) for bb, t in nb.calls() if (callee_path(t) or '') == 'sound::transport::Transport::new' and len(t['args']) > 1]
+        R.check(not wr and len(lr) == 1 and lr[0].endswith('settings.loop_region'), 'B.C18.seek', 'new:transport-untouched',
+                'DecodeScheduler::new writes into the transport it has just built (%s) / builds it from the loop region %s: the decoder thread steps with a loop '
+                'region Transport::new did not vet (an empty one never lets it back to run())' % (wr[:2], [x[:60] for x in lr]), detail={'loop_region': (lr or ['?'])[0][:60]}, where=nb.file)
         R.check(okn, 'B.C18.seek', 'new:transport-start', 'a new streaming sound\'s transport starts at %s, not at the requested start position'
                 % [d[:100] for _, d in tn], detail={'start': tn[0][1][:120] if tn else None}, where=nb.file)
     # a relative seek is relative to what is being HEARD: the decoder thread's own transport runs up to a ring buffer ahead
